@@ -182,12 +182,30 @@ def rule_r3(ctx):
     return fresh_default_insts(ctx, "C14.R3")
 
 
+
+def rule_r4(ctx):
+    """no hidden state: nothing computed from a chart, list or class is kept across calls where the data can change under
+    it, and no class replaces its deep copy with one that shares fields (sa/props/hidden.py; expected count zero, positive
+    control on every run)"""
+    from .hidden import hidden_insts
+    M = ctx.M
+    quals = [q for q in M.funcs if q.startswith("reamber.") and CTL not in q]
+    return hidden_insts(ctx, "C14.R4", quals)
+
+
+def _control_r4() -> bool:
+    from .hidden import control
+    return control()
+
+
 SPECS = [
     RuleSpec("C14.R1", _wrap(rule_r1), 140, "A3", "no parameter-rooted mutation in any listed operation",
              control=lambda: control_r1(_holder)),
     RuleSpec("C14.R2", _wrap(rule_r2), 12, "A3", "copies return only fresh state",
              control=lambda: control_r2(_holder)),
     RuleSpec("C14.R3", rule_r3, 6, "A3", "every chart gets its own list objects (fresh defaults per instance)"),
+    RuleSpec("C14.R4", rule_r4, 1, "A8", "no memoised results on editable objects, no class-level memo inherited by subclasses, no sharing copy hooks",
+             control=_control_r4),
 ]
 
 META = dict(
